@@ -21,7 +21,7 @@ static void run_trace_header(int argc, char **argv) {
     if (!dflt) conf.capacity = vf_num(argv[3]);
     if (!strcmp(argv[4], "conf")) { conf.mem_alloc = vf_conf_malloc; conf.mem_calloc = vf_conf_calloc; conf.mem_free = vf_conf_free; }
     vf_set_plan(argc > 5 ? argv[5] : "");
-    enum cc_stat s = (dflt && strcmp(argv[4], "conf")) ? cc_rbuf_new(&rb) : cc_rbuf_conf_new(&conf, &rb);
+    enum cc_stat s = VF_OUT(rb, (dflt && strcmp(argv[4], "conf")) ? cc_rbuf_new(&rb) : cc_rbuf_conf_new(&conf, &rb));
     printf("new %s", vf_stat(s));
     if (s == CC_OK) obs(); else { rb = NULL; printf(" |"); vf_ledger(); }
 }
